@@ -381,8 +381,10 @@ def shrink_scn(scn, check, max_tries=120):
 
 def gen_tf_pool(rng):
     """a base timeframe and up to two multiples of it (so that nested timeframes are unambiguous)"""
-    unit = rng.choice("STTTH")
-    base_mult = rng.choice([1, 1, 2, 5, 10, 15])
+    unit = rng.choice("STTTHHD")
+    base_mult = rng.choice([1, 1, 2, 5, 10, 15]) if unit != "D" else rng.choice([1, 1, 2])
+    if unit == "H" and rng.random() < 0.3:
+        base_mult = rng.choice([6, 12, 24, 25])     # multiples that reach or pass a whole day
     mults = rng.sample([1, 2, 3, 4], rng.choice([1, 2, 2]))
     return f"{unit}{base_mult}", [f"{unit}{base_mult * m}" for m in mults]
 
@@ -668,6 +670,12 @@ def gen_c08(rng, size=50, allow_hx_tf=True, allow_ha_member_tf=True, wide=False)
         m["tf"] = rng.choice(pool) if member_tf and rng.random() < 0.7 else None
         if m["tf"] and rng.random() < 0.2:
             m["tf_lower"] = True
+        if m["tf"] and m["kind"] != "Amorph" and rng.random() < 0.15:
+            # manager settings written on the MEMBER: inside a Hexital the manager is the Hexital's, so they decide nothing - neither
+            # for this member nor for a neighbour on the same timeframe, whoever registers first (the twin gets the Hexital's)
+            m["params"][rng.choice(["timeframe_fill", "candlestick_type"])] = True
+            if m["params"].get("candlestick_type") is True:
+                m["params"]["candlestick_type"] = "HA"
         if m["kind"] == "Amorph":
             m["form"] = rng.choice(["obj", "dict", "dict_callable", "dict_args", "settings"])
         else:
